@@ -2,6 +2,9 @@
 #include "core.h"
 
 #include <cxxabi.h>
+#include <elf.h>
+#include <fcntl.h>
+#include <link.h>
 #include <pthread.h>
 #include <signal.h>
 #include <sys/mman.h>
@@ -48,6 +51,7 @@ struct Fiber {
   void *asan_fake = nullptr;
   unsigned vg_id = 0;
   uint64_t eh[2] = {};  // saved __cxa_eh_globals
+  unsigned char *tls = nullptr;  // saved copies of the library's thread_local variables
 };
 
 enum TState { T_READY, T_BLOCKED, T_DONE };
@@ -105,6 +109,106 @@ static char *get_stack(int i) {
   return g_stack_pool[i];
 }
 
+
+// ------------------------------------------------------------------ thread_local
+// All simulated caller threads share one OS thread and therefore one TLS block.
+// A library that keeps per-thread state in thread_local variables (a legitimate
+// way to be thread-safe) would see its "threads" share that state. The
+// thread_local variables of the library under test - TLS symbols of this
+// executable whose mangled name mentions the library's namespace, plus the
+// per-TU __tls_guard flags - are therefore saved and restored on every fiber
+// switch; a new task starts from the TLS initialisation image, as a new thread
+// would. (Sanitizer runtimes keep their own state in the same TLS block, so the
+// block cannot be swapped wholesale.)
+struct TlsRange {
+  size_t off, size;
+};
+static const int kMaxTlsRanges = 256;
+static TlsRange g_tls_ranges[kMaxTlsRanges];
+static int g_n_tls_ranges = 0;
+static size_t g_tls_bytes = 0;
+static unsigned char *g_tls_base = nullptr;         // address of TLS offset 0 in this thread
+static const unsigned char *g_tls_image = nullptr;  // initialisation image
+static size_t g_tls_filesz = 0;
+static thread_local char sim_tls_anchor = 1;
+
+static int tls_phdr_cb(struct dl_phdr_info *info, size_t, void *) {
+  if (info->dlpi_name && info->dlpi_name[0]) return 0;  // main program only
+  for (int i = 0; i < info->dlpi_phnum; i++)
+    if (info->dlpi_phdr[i].p_type == PT_TLS) {
+      g_tls_image = (const unsigned char *)(info->dlpi_addr + info->dlpi_phdr[i].p_vaddr);
+      g_tls_filesz = info->dlpi_phdr[i].p_filesz;
+    }
+  return 1;
+}
+
+static void tls_discover() {
+  int fd = open("/proc/self/exe", O_RDONLY);
+  if (fd < 0) return;
+  Elf64_Ehdr eh;
+  if (pread(fd, &eh, sizeof eh, 0) != (ssize_t)sizeof eh) {
+    close(fd);
+    return;
+  }
+  size_t shsz = (size_t)eh.e_shnum * sizeof(Elf64_Shdr);
+  Elf64_Shdr *sh = (Elf64_Shdr *)malloc(shsz);
+  if (!sh || pread(fd, sh, shsz, (off_t)eh.e_shoff) != (ssize_t)shsz) {
+    close(fd);
+    return;
+  }
+  size_t anchor_off = (size_t)-1;
+  for (int i = 0; i < eh.e_shnum; i++) {
+    if (sh[i].sh_type != SHT_SYMTAB) continue;
+    const Elf64_Shdr &st = sh[sh[i].sh_link];
+    char *str = (char *)malloc(st.sh_size);
+    Elf64_Sym *sym = (Elf64_Sym *)malloc(sh[i].sh_size);
+    if (!str || !sym || pread(fd, str, st.sh_size, (off_t)st.sh_offset) != (ssize_t)st.sh_size ||
+        pread(fd, sym, sh[i].sh_size, (off_t)sh[i].sh_offset) != (ssize_t)sh[i].sh_size)
+      break;
+    size_t n = sh[i].sh_size / sizeof(Elf64_Sym);
+    for (size_t k = 0; k < n; k++) {
+      if (ELF64_ST_TYPE(sym[k].st_info) != STT_TLS) continue;
+      const char *name = str + sym[k].st_name;
+      if (strstr(name, "sim_tls_anchor")) anchor_off = sym[k].st_value;
+      bool lib = strstr(name, "bspline") != nullptr || strcmp(name, "__tls_guard") == 0;
+      if (lib && sym[k].st_size > 0 && g_n_tls_ranges < kMaxTlsRanges) {
+        g_tls_ranges[g_n_tls_ranges++] = TlsRange{(size_t)sym[k].st_value, (size_t)sym[k].st_size};
+        g_tls_bytes += sym[k].st_size;
+      }
+    }
+    free(str);
+    free(sym);
+  }
+  free(sh);
+  close(fd);
+  if (anchor_off == (size_t)-1) {
+    g_n_tls_ranges = 0;
+    g_tls_bytes = 0;
+    return;
+  }
+  g_tls_base = (unsigned char *)&sim_tls_anchor - anchor_off;
+  dl_iterate_phdr(tls_phdr_cb, nullptr);
+}
+static void tls_fill_initial(unsigned char *save) {
+  size_t pos = 0;
+  for (int r = 0; r < g_n_tls_ranges; r++)
+    for (size_t i = 0; i < g_tls_ranges[r].size; i++) {
+      size_t off = g_tls_ranges[r].off + i;
+      save[pos++] = (g_tls_image && off < g_tls_filesz) ? g_tls_image[off] : 0;
+    }
+}
+static inline void tls_swap(unsigned char *out, const unsigned char *in) {
+  size_t pos = 0;
+  for (int r = 0; r < g_n_tls_ranges; r++) {
+    volatile unsigned char *p = g_tls_base + g_tls_ranges[r].off;
+    for (size_t i = 0; i < g_tls_ranges[r].size; i++, pos++) {
+      out[pos] = p[i];
+      p[i] = in[pos];
+    }
+  }
+}
+int tls_virtualised_variables() { return g_n_tls_ranges; }
+
 static void fiber_switch(Fiber *from, Fiber *to, bool sync, bool from_dying) {
   // word copies, not memcpy: TSan intercepts libc even in this TU
   volatile uint64_t *eh = (volatile uint64_t *)abi::__cxa_get_globals();
@@ -113,6 +217,7 @@ static void fiber_switch(Fiber *from, Fiber *to, bool sync, bool from_dying) {
   eh[0] = to->eh[0];
   eh[1] = to->eh[1];
   if (S.stats && (uint32_t)from->eh[1] != 0) S.stats->switches_in_exception++;
+  if (g_n_tls_ranges > 0 && from->tls && to->tls) tls_swap(from->tls, to->tls);
 #if defined(SIM_ASAN)
   __sanitizer_start_switch_fiber(from_dying ? nullptr : &from->asan_fake,
                                  to->stack, to->stack_size);
@@ -412,6 +517,11 @@ void run_tasks(int n, TaskFn fn, void *arg, const SchedConfig &cfg,
     t.fb.stack_size = kStackSize;
     t.fb.asan_fake = nullptr;
     t.fb.eh[0] = t.fb.eh[1] = 0;
+    if (g_n_tls_ranges > 0) {
+      if (!t.fb.tls) t.fb.tls = (unsigned char *)malloc(g_tls_bytes);
+      tls_fill_initial(t.fb.tls);  // a new thread starts from the initialisation image
+      if (!S.main_fb.tls) S.main_fb.tls = (unsigned char *)malloc(g_tls_bytes);
+    }
     getcontext(&t.fb.ctx);
     t.fb.ctx.uc_stack.ss_sp = t.fb.stack;
     t.fb.ctx.uc_stack.ss_size = t.fb.stack_size;
@@ -604,13 +714,187 @@ extern "C" void __wrap___cxa_guard_abort(uint64_t *g) {
   wake_all();
 }
 
+static void reset_locks();
 void reset_library_guards() {
+  reset_locks();
   for (int i = 0; i < g_n_guards; i++) {
     volatile uint8_t *b = (volatile uint8_t *)g_lib_guards[i];
     b[0] = 0;
     b[1] = 0;
   }
 }
+
+
+}  // namespace sim
+
+// ------------------------------------------------------------------ locks
+// Blocking primitives a library may legitimately use for correctly
+// synchronised lazy state (std::mutex, std::call_once, std::shared_mutex).
+// Fibers share one OS thread: a task pre-empted inside a critical section
+// would make the next task block the whole process in the real primitive.
+// The calls made from the code compiled into the simulator are therefore
+// wrapped: a task that finds a lock held by another task is parked by the
+// scheduler; the real primitive is still called once it cannot block, so that
+// TSan sees the genuine acquire/release edges.
+extern "C" {
+int __real_pthread_mutex_lock(pthread_mutex_t *);
+int __real_pthread_mutex_trylock(pthread_mutex_t *);
+int __real_pthread_mutex_unlock(pthread_mutex_t *);
+int __real_pthread_once(pthread_once_t *, void (*)(void));
+int __real_pthread_rwlock_rdlock(pthread_rwlock_t *);
+int __real_pthread_rwlock_wrlock(pthread_rwlock_t *);
+int __real_pthread_rwlock_tryrdlock(pthread_rwlock_t *);
+int __real_pthread_rwlock_trywrlock(pthread_rwlock_t *);
+int __real_pthread_rwlock_unlock(pthread_rwlock_t *);
+}
+namespace sim {
+struct LockRec {
+  void *addr;
+  int owner;   // task id, -1 free
+  int count;
+};
+static const int kMaxLocks = 128;
+static LockRec g_locks[kMaxLocks];
+static int g_n_locks = 0;
+static LockRec *lock_rec(void *a) {
+  for (int i = 0; i < g_n_locks; i++)
+    if (g_locks[i].addr == a) return &g_locks[i];
+  for (int i = 0; i < g_n_locks; i++)
+    if (g_locks[i].owner < 0 && g_locks[i].count == 0) {  // recycle a free record
+      g_locks[i].addr = a;
+      return &g_locks[i];
+    }
+  if (g_n_locks < kMaxLocks) {
+    g_locks[g_n_locks] = LockRec{a, -1, 0};
+    return &g_locks[g_n_locks++];
+  }
+  return nullptr;
+}
+static bool sim_lock_active() { return S.active && g_cur->id >= 0; }
+// waits until no other task holds the lock; returns the record (owner set)
+static LockRec *sim_acquire(void *a, bool try_only, bool *busy) {
+  TaskCtl *c = g_cur;
+  if (c->lib_depth > 0 && !c->exempt) yield_point(Y_GUARD);
+  LockRec *r = lock_rec(a);
+  if (!r) return nullptr;
+  while (r->owner >= 0 && r->owner != c->id) {
+    if (try_only) {
+      *busy = true;
+      return r;
+    }
+    S.stats->guard_contended++;
+    block_current();
+    r = lock_rec(a);
+    if (!r) return nullptr;
+  }
+  r->owner = c->id;
+  r->count++;
+  return r;
+}
+static void sim_release(void *a) {
+  LockRec *r = lock_rec(a);
+  if (r && r->owner == g_cur->id && r->count > 0) {
+    if (--r->count == 0) r->owner = -1;
+  }
+  wake_all();
+  if (g_cur->lib_depth > 0 && !g_cur->exempt) yield_point(Y_GUARD);
+}
+static void reset_locks() {
+  g_n_locks = 0;
+}
+}  // namespace sim
+extern "C" {
+int __wrap_pthread_mutex_lock(pthread_mutex_t *m) {
+  if (!sim::sim_lock_active()) return __real_pthread_mutex_lock(m);
+  bool busy = false;
+  sim::sim_acquire(m, false, &busy);
+  return __real_pthread_mutex_lock(m);
+}
+int __wrap_pthread_mutex_trylock(pthread_mutex_t *m) {
+  if (!sim::sim_lock_active()) return __real_pthread_mutex_trylock(m);
+  bool busy = false;
+  sim::sim_acquire(m, true, &busy);
+  if (busy) return 16;  // EBUSY
+  int rc = __real_pthread_mutex_trylock(m);
+  if (rc != 0) sim::sim_release(m);
+  return rc;
+}
+int __wrap_pthread_mutex_unlock(pthread_mutex_t *m) {
+  int rc = __real_pthread_mutex_unlock(m);
+  if (sim::sim_lock_active()) sim::sim_release(m);
+  return rc;
+}
+int __wrap_pthread_rwlock_rdlock(pthread_rwlock_t *m) {
+  if (!sim::sim_lock_active()) return __real_pthread_rwlock_rdlock(m);
+  bool busy = false;
+  sim::sim_acquire(m, false, &busy);  // readers are serialised as well: conservative, never blocks for real
+  return __real_pthread_rwlock_rdlock(m);
+}
+int __wrap_pthread_rwlock_wrlock(pthread_rwlock_t *m) {
+  if (!sim::sim_lock_active()) return __real_pthread_rwlock_wrlock(m);
+  bool busy = false;
+  sim::sim_acquire(m, false, &busy);
+  return __real_pthread_rwlock_wrlock(m);
+}
+int __wrap_pthread_rwlock_tryrdlock(pthread_rwlock_t *m) {
+  if (!sim::sim_lock_active()) return __real_pthread_rwlock_tryrdlock(m);
+  bool busy = false;
+  sim::sim_acquire(m, true, &busy);
+  if (busy) return 16;
+  int rc = __real_pthread_rwlock_tryrdlock(m);
+  if (rc != 0) sim::sim_release(m);
+  return rc;
+}
+int __wrap_pthread_rwlock_trywrlock(pthread_rwlock_t *m) {
+  if (!sim::sim_lock_active()) return __real_pthread_rwlock_trywrlock(m);
+  bool busy = false;
+  sim::sim_acquire(m, true, &busy);
+  if (busy) return 16;
+  int rc = __real_pthread_rwlock_trywrlock(m);
+  if (rc != 0) sim::sim_release(m);
+  return rc;
+}
+int __wrap_pthread_rwlock_unlock(pthread_rwlock_t *m) {
+  int rc = __real_pthread_rwlock_unlock(m);
+  if (sim::sim_lock_active()) sim::sim_release(m);
+  return rc;
+}
+// The init routine of a once-flag is treated like a static initialiser: no
+// attached fault is injected inside it (an exception out of pthread_once is
+// not supported by the TSan runtime's interceptor, which never resets its
+// control word), and its steps do not count towards the operation's indices.
+static void (*g_once_fn)(void) = nullptr;
+static void sim_once_trampoline(void) {
+  void (*fn)(void) = g_once_fn;
+  sim::TaskCtl *c = sim::g_cur;
+  c->in_static_init++;
+  try {
+    fn();
+  } catch (...) {
+    c->in_static_init--;
+    throw;
+  }
+  c->in_static_init--;
+}
+int __wrap_pthread_once(pthread_once_t *o, void (*fn)(void)) {
+  if (!sim::sim_lock_active()) return __real_pthread_once(o, fn);
+  // the real control word says whether the initialisation has completed; the
+  // side record only tracks "in progress in task X"
+  bool busy = false;
+  sim::sim_acquire(o, false, &busy);
+  struct Release {
+    void *a;
+    ~Release() { sim::sim_release(a); }
+  } rel{o};
+  // run the real once: nobody else is inside (we hold the record), so it either
+  // returns at once (done) or runs fn in this task; fn may yield - other tasks
+  // arriving meanwhile are parked on the record, not in the real primitive
+  g_once_fn = fn;
+  return __real_pthread_once(o, sim_once_trampoline);
+}
+}
+
+namespace sim {
 
 // ------------------------------------------------------------------ allocator
 // Side table of blocks allocated inside library regions (open addressing).
@@ -861,6 +1145,18 @@ void process_init() {
     pthread_attr_destroy(&attr);
   }
   S.stats = &g_dummy_stats;
+  tls_discover();
+  {
+    // ASan prints a one-time notice at the first makecontext of a process; take
+    // it here so that the per-run children (forked later) do not repeat it
+    static ucontext_t dummy;
+    static char dummy_stack[16384];
+    getcontext(&dummy);
+    dummy.uc_stack.ss_sp = dummy_stack;
+    dummy.uc_stack.ss_size = sizeof(dummy_stack);
+    dummy.uc_link = nullptr;
+    makecontext(&dummy, (void (*)())noop_thread, 0);
+  }
 }
 
 const char *flavour_name() {
@@ -885,11 +1181,40 @@ void tsan_note_report() {
 }  // namespace sim
 
 #if defined(SIM_TSAN)
-extern "C" void __tsan_on_report(void *) { sim::tsan_note_report(); }
+extern "C" {
+int __tsan_get_report_data(void *report, const char **description, int *count, int *stack_count, int *mop_count,
+                           int *loc_count, int *mutex_count, int *thread_count, int *unique_tid_count,
+                           void **sleep_trace, unsigned long trace_size);
+int __tsan_get_report_loc(void *report, unsigned long idx, const char **type, void **addr, unsigned long *start,
+                          unsigned long *size, int *tid, int *fd, int *suppressable, void **trace,
+                          unsigned long trace_size);
+}
+// Thread-local storage belongs to the OS thread, which all simulated caller
+// threads (fibers) share: a report whose location is TLS says that two fibers
+// touched "the same" thread_local - in a real program each thread has its own.
+// Such reports are an artefact of the simulation and are not counted.
+extern "C" void __tsan_on_report(void *rep) {
+  const char *desc = nullptr;
+  int count = 0, stacks = 0, mops = 0, locs = 0, mutexes = 0, threads = 0, utids = 0;
+  void *sleep_trace[1] = {nullptr};
+  if (__tsan_get_report_data(rep, &desc, &count, &stacks, &mops, &locs, &mutexes, &threads, &utids, sleep_trace, 1)) {
+    for (int i = 0; i < locs; i++) {
+      const char *type = nullptr;
+      void *addr = nullptr;
+      unsigned long start = 0, size = 0;
+      int tid = 0, fd = 0, supp = 0;
+      void *trace[1] = {nullptr};
+      if (__tsan_get_report_loc(rep, (unsigned long)i, &type, &addr, &start, &size, &tid, &fd, &supp, trace, 1) && type &&
+          strcmp(type, "tls") == 0)
+        return;
+    }
+  }
+  sim::tsan_note_report();
+}
 extern "C" __attribute__((used)) const char *__tsan_default_options() {
   return "halt_on_error=0:report_bugs=1:suppress_equal_stacks=0:"
          "suppress_equal_addresses=0:exitcode=0:history_size=4:"
-         "report_signal_unsafe=0:detect_deadlocks=0";
+         "report_signal_unsafe=0:detect_deadlocks=0:die_after_fork=0";
 }
 #endif
 #if defined(SIM_ASAN)
